@@ -11,6 +11,7 @@ package ocigen
 import (
 	"fmt"
 	"os"
+	"strings"
 
 	"github.com/containerd/nri/pkg/api"
 	rspec "github.com/opencontainers/runtime-spec/specs-go"
@@ -41,6 +42,9 @@ type Inject struct {
 	Env      bool   `json:"env,omitempty"`
 	Mount    bool   `json:"mount,omitempty"`
 	Device   bool   `json:"device,omitempty"`
+	// MountAtDevice: the injector also bind-mounts the host's /dev/nvidia0 at (a private
+	// spelling of) /dev/nvidia0, a path of the device alphabet (CDI mount edit).
+	MountAtDevice bool `json:"mount_at_device,omitempty"`
 }
 
 var hookKinds = []string{"prestart", "createRuntime", "createContainer", "startContainer", "poststart", "poststop"}
@@ -89,6 +93,10 @@ func (inj *Inject) apply(s *rspec.Spec, step int) {
 	}
 	if inj.Mount {
 		s.Mounts = append(s.Mounts, rspec.Mount{Destination: fmt.Sprintf("/cdi-lib%d", step), Type: "bind", Source: "/usr/lib/cdi", Options: []string{"ro", "nosuid"}})
+	}
+	if inj.MountAtDevice {
+		// spelled like no pool destination, so that destinations stay unique as written
+		s.Mounts = append(s.Mounts, rspec.Mount{Destination: "/dev/" + strings.Repeat("./", step+1) + "nvidia0", Type: "bind", Source: "/dev/nvidia0", Options: []string{"rbind"}})
 	}
 	if inj.Device && s.Linux != nil {
 		s.Linux.Devices = append(s.Linux.Devices, rspec.LinuxDevice{Path: fmt.Sprintf("/dev/cdi%d", step), Type: "c", Major: 195, Minor: int64(step), FileMode: fileMode(0o666)})
